@@ -241,6 +241,51 @@ def build_driver(log):
     return out if rc != 0 else None
 
 
+def run_driver_sharded(cf, timeout=3000, maxshards=16):
+    """Run the extracted-model driver over a cases file, split round-robin into parallel shards. Every case
+    line is independent except for the Zobrist key tables (`zkeys` lines) and comment headers, which every
+    shard gets."""
+    lines = open(cf).read().split('\n')
+    head = [l for l in lines if l.startswith('#') or l.startswith('zkeys ')]
+    body = [l for l in lines if l and not (l.startswith('#') or l.startswith('zkeys '))]
+    k = max(1, min(maxshards, len(body) // 40))
+    if k == 1:
+        p = subprocess.run([BUILD + '/vdriver', cf], stdout=subprocess.PIPE, stderr=subprocess.STDOUT, timeout=timeout)
+        return p.returncode, p.stdout.decode('utf-8', 'replace')
+    procs = []
+    for i in range(k):
+        sf = '%s.shard%d' % (cf, i)
+        with open(sf, 'w') as f:
+            f.write('\n'.join(head + body[i::k]) + '\n')
+        procs.append((sf, subprocess.Popen([BUILD + '/vdriver', sf], stdout=subprocess.PIPE, stderr=subprocess.STDOUT)))
+    t0 = time.time()
+    rc, outs, n = 0, [], 0
+    nz = len([l for l in head if l.startswith('zkeys ')])
+    for sf, p in procs:
+        try:
+            o, _ = p.communicate(timeout=max(1, timeout - (time.time() - t0)))
+        except subprocess.TimeoutExpired:
+            p.kill()
+            o, _ = p.communicate()
+            o += b'\n[timeout]'
+            rc = 124
+        o = o.decode('utf-8', 'replace')
+        if p.returncode not in (0, None) and rc == 0:
+            rc = p.returncode
+        kept = []
+        for l in o.split('\n'):
+            m = re.match(r'DONE n=(\d+)', l)
+            if m:
+                n += int(m.group(1)) - nz
+            else:
+                kept.append(l)
+        outs.append('\n'.join(kept))
+        try:
+            os.remove(sf)
+        except OSError:
+            pass
+    return rc, '\n'.join(outs) + '\nDONE n=%d\n' % (n + nz)
+
 def run_cases(prop, gen_name, seed, tier, log, tag=''):
     os.makedirs(BUILD + '/cases', exist_ok=True)
     cf = '%s/cases/%s%s.txt' % (BUILD, gen_name, tag)
@@ -253,7 +298,9 @@ def run_cases(prop, gen_name, seed, tier, log, tag=''):
         if res['specviol']:
             return res, None
         return None, 'harness cases failed: ' + out[-2000:]
-    rc, dout, dt = run([BUILD + '/vdriver', cf], timeout=3000)
+    t0 = time.time()
+    rc, dout = run_driver_sharded(cf, timeout=3000)
+    dt = time.time() - t0
     log.setdefault('driver_s', 0)
     log['driver_s'] = round(log['driver_s'] + dt, 1)
     if rc != 0:
